@@ -379,7 +379,7 @@ impl Rule {
                     loop {
                         global.tracer.print_informative("Starting new left recursive loop");
                         let state = state.clone();
-                        let new_result = { #parse_body };
+                        let new_result = (|| { #parse_body })();
                         match (new_result, &best_result) {
                             (Ok(nro), Ok(bro)) => {
                                 if nro.state.is_further_than(&bro.state) {
@@ -413,7 +413,7 @@ impl Rule {
                     global.tracer.print_informative("Cache hit");
                     cached.clone()
                 } else {
-                    let result = { #parse_body };
+                    let result = (|| { #parse_body })();
                     global.cache.#cache_entry_ident.insert(cache_key, result.clone());
                     result
                 }
